@@ -70,6 +70,10 @@ func runWallet(tier string, seed int64, summaryPath, outPath string) {
 			passwd := hex.EncodeToString(key)
 			path := filepath.Join(dir, fmt.Sprintf("w%d_%d", wi, ks))
 			h := fileoperations.New(fileoperations.Config{WalletPath: path, WalletPasswd: passwd, WalletPemPath: path + ".pem"}, aeswrapper.New())
+			if wi%2 == 1 { // the wallet path already holds a (longer) file: saving must replace it entirely
+				os.WriteFile(path, bytes.Repeat([]byte{0xAB}, 300+rng.Intn(200)), 0644)
+				sum.Kinds["save.over_existing_longer_file"]++
+			}
 			if err := h.SaveWallet(&w); err != nil {
 				viol("save-failed", map[string]any{"err": err.Error()})
 				continue
